@@ -80,7 +80,7 @@ type Runner struct {
 
 // NewRunner creates a runner with n peers with fresh source addresses.
 func NewRunner(a *rig.Agent, b *rig.Bessd, p4 *rig.P4d, n int, base int) (*Runner, error) {
-	r := &Runner{A: a, B: b, P4: p4, Sess: map[int]*SessState{}, RespTimeout: 3 * time.Second, PeerBase: base,
+	r := &Runner{A: a, B: b, P4: p4, Sess: map[int]*SessState{}, RespTimeout: 10 * time.Second, PeerBase: base,
 		UnknownSEID: 0x7fffffff00000001}
 	for i := 0; i < n; i++ {
 		ip := fmt.Sprintf("127.0.%d.%d", base, 2+i)
@@ -234,7 +234,7 @@ func (r *Runner) Exec(op model.Op) *Obs {
 				}
 			}
 			// the node forgets the connection asynchronously; wait until a new one can be made
-			pr := p.P.Probe(op.Seq, 2*time.Second)
+			pr := p.P.Probe(op.Seq, 6*time.Second)
 			o.Alive = pr.Alive
 			o.Extra = append(o.Extra, pr.Answers...)
 			p.ConnSeen = true
@@ -356,7 +356,7 @@ func (r *Runner) Exec(op model.Op) *Obs {
 		}
 		o.Sent = b
 		o.CmdFrom = r.logLen()
-		pr := p.P.Exchange(b, 2*time.Second)
+		pr := p.P.Exchange(b, 6*time.Second)
 		p.ConnSeen = true
 		o.Alive = pr.Alive
 		o.Extra = pr.Answers
